@@ -32,15 +32,15 @@ claim("C11",
       "Exhaustive over 2 epochs x 4 release shapes x 4 pre x 2 post x 2 dev x 4 local (262144 ordered pairs); random beyond.",
       GEN, "DESIGN.md 5/C11")
 claim("C17",
-      "Calendar.tla is a day-successor automaton (no civil-date formula shared with chrono); TLC walks all 84006 days to 2199-12-31 checking well-formedness and anchor dates and prints the 16 pattern values for selected days, which are compared with resolve_timestamp and, on month boundaries, with the CalVer presets, ts(<pattern>) components and the last_timestamp fallback through the version pipeline; random instants recorded under a non-UTC TZ are validated by a trace spec that walks the same automaton.",
+      "Calendar.tla is a day-successor automaton (no civil-date formula shared with chrono); TLC walks all 84006 days to 2199-12-31 checking well-formedness and anchor dates and prints the 16 pattern values for selected days, which are compared with resolve_timestamp and, on month boundaries, with the CalVer presets, ts(<pattern>) components and the last_timestamp fallback through the version pipeline; random instants recorded under a non-UTC TZ are validated by a trace spec that walks the same automaton. A closed form (DaysFromCivil) is tied to the automaton on every day walked and validates the civil fields of recorded instants beyond it, up to 9999-12-31.",
       "Quick: every 7th day plus all month/year/leap/week boundaries (19935 days x 3 instants x 16 patterns); thorough: every day.",
       GEN, "DESIGN.md 5/C17")
 
 
 claim("C05",
-      "ZervModel.tla is `zerv version` as a state machine (validation, VCS overrides, clean, tag version, context control, schema choice, one step per precedence level with override / bump / reset-lower, one step per index-addressed operation, timestamp, normalise). TLC checks the action property 'no step changes a level above its own', the closed-form law of the property against the stepwise machine, 'errors give no result' and schema validity in three bounded argument spaces, and prints every behaviour; the harness replays each through clap and run_version_pipeline under two flag permutations and compares all variables and schema components; random runs recorded from the code are re-executed action by action by Trace_Zerv.",
-      "Exhaustive in: all 3^7 (quick) / 4^7 (thorough) override-bump subsets x 3 label choices x 3 starts; 29k index-operation cases; 18k VCS/preset cases. Random amounts up to 2^29 beyond. Default precedence order only.",
-      GEN, "DESIGN.md 5/C05")
+      "ZervModel.tla is `zerv version` as a state machine (validation, VCS overrides, clean, tag version, context control, schema choice, one step per precedence level with override / bump / reset-lower, one step per index-addressed operation, timestamp, normalise). TLC checks the action property 'no step changes a level above its own', the closed-form law of the property against the stepwise machine, 'errors give no result' and schema validity in three bounded argument spaces, and prints every behaviour; the harness replays each through clap and run_version_pipeline under two flag permutations and compares all variables and schema components; random runs recorded from the code are re-executed action by action by Trace_Zerv. Further argument spaces: custom precedence orders inside a RON schema, template-valued flag values resolved against the pre-bump state. The reset law itself is also decided without bounds on ResetLaw.tla (Apalache: action invariant from an arbitrary state for all integers; TLAPS: Spec => []WF and Spec => [][Law]_vars, 45 obligations; TLC links every ResetLaw transition to ZervOps!ProcByName) and, on decimal texts (BigNum.tla / Trace_BigBump), on recorded runs whose numbers lie between 2^31 and 2^64.",
+      "Exhaustive in: all 3^7 (quick) / 4^7 (thorough) override-bump subsets x 3 label choices x 3 starts; 29k index-operation cases; 18k VCS/preset cases; order and template spaces. Random amounts up to 2^29 in the integer model, u64-range values in the text lane.",
+      "TLA+ spec model-checked by TLC (+ Apalache symbolic check and TLAPS proof of the reset law); TLC-generated cases replayed into the code; recorded traces validated by TLC", "DESIGN.md 5/C05")
 
 
 claim("C06",
@@ -67,7 +67,7 @@ claim("C03",
 
 claim("C02",
       "GitRepo.tla models the repository (commit DAG, branches, HEAD, lightweight/annotated tags) with one action per git operation and states declaratively what zerv must report (nearest validly tagged ancestor-or-self, highest version on it under the spec's own order modules, distance, dirty, branch, hashes, times, 'no version tags'). TLC enumerates every repository reachable within the bounds and emits a witness operation sequence per state; the harness replays it with the real git and compares `zerv version -C` under three input formats and five work-tree kinds with the acceptable answers. Random sessions (up to 12 commits, criss-cross merges, retagging) are validated by Trace_GitRepo, which replays every operation through the spec's actions and judges an observation after each.",
-      "Exhaustive over <= 3 commits / <= 4 operations / 4 tag names (quick), <= 4 commits / <= 6 operations / 5 tag names sampled (thorough); random sessions beyond. Real git 2.39, isolated configuration, commit-time policies increasing / decreasing / constant.",
+      "Exhaustive over <= 3 commits / <= 4 operations / 4 tag names (quick), <= 4 commits / <= 6 operations / 5 tag names sampled (thorough); a second exploration with history rewriting (reset --hard, commit --amend, tag -f); a tag named like a branch; observations also from a sub-directory and from linked work trees; random sessions beyond. Real git 2.39, isolated configuration, commit-time policies increasing / decreasing / constant / from the Unix epoch.",
       GEN, "DESIGN.md 5/C02")
 
 
@@ -94,14 +94,14 @@ claim("C13",
 
 
 claim("C14",
-      "Trace_Env keeps a memo per input: the first run fixes the answer, every later run of the same input under another TZ / locale / working directory / set of unrelated variables / process must reproduce it, and runs that carry a calendar instant must start with the UTC date given by Calendar.tla (so the first observation cannot itself be wrong). ~250 inputs (CalVer presets, ts() components and format_timestamp templates within +-14 h of day / month / year boundaries, branch hashes, non-ASCII names, stdin RON, render / check, three git repositories with absolute and relative -C) are run with the real binary under the environment matrix.",
-      "250 inputs x 8 (quick) / 60 (thorough) environments. Only C / C.UTF-8 / POSIX locales exist on the image.",
+      "Trace_Env keeps a memo per input: the first run fixes the answer, every later run of the same input under another TZ / locale / working directory / set of unrelated variables / process must reproduce it, and runs that carry a calendar instant must start with the UTC date given by Calendar.tla (so the first observation cannot itself be wrong). ~300 inputs (CalVer presets, ts() components and format_timestamp templates within +-14 h of day / month / year boundaries, branch hashes, non-ASCII names, stdin RON, render / check, six git repositories with absolute and relative -C - ahead of the tag, exactly at it, with several equal-precedence tag spellings on one commit, with a commit made at the Unix epoch) are run with the real binary under the environment matrix.",
+      "~300 inputs x 8 (quick) / 60 (thorough) environments. Numbers within 10 minutes of the wall clock are masked except for clean-at-tag repositories. Only C / C.UTF-8 / POSIX locales exist on the image.",
       "TLA+ memo specification; recorded process runs under an environment matrix validated by TLC", "DESIGN.md 5/C14")
 
 
 claim("C18",
-      "PyApi.tla states _extend_args as a machine and the keyword -> option rule from the CLI contract; TLC checks the table invariant (every keyword of the four functions, read from the current Python signatures, maps to an option that the sub-command of the current build accepts with the right arity, read from the clap definitions) and generates every call with one or two keywords in each value class together with its expected argv. The Python harness runs the real module: captured argv = expected argv; unpatched against the built binary the return value equals the stripped stdout of the equivalent command line and failing commands raise.",
-      "Finite: 41 + 27 + 2 + 4 keywords x value classes (quick), all keyword pairs (thorough).",
+      "PyApi.tla states _extend_args as a machine and the keyword -> option rule from the CLI contract; TLC checks the table invariant (every keyword of the four functions, read from the current Python signatures, maps to an option that the sub-command of the current build accepts with the right arity, read from the clap definitions) and generates every call with one or two keywords in each value class together with its expected argv. The Python harness runs the real module: captured argv = expected argv; unpatched against the built binary the return value equals the stripped stdout of the equivalent command line and failing commands raise; stdin is combined with every source.",
+      "Finite: 41 + 27 + 2 + 4 keywords x 7 value classes (None, False, True, 0, valid, empty string, hostile text) (quick), all keyword pairs (thorough).",
       GEN, "DESIGN.md 5/C18")
 
 
